@@ -511,6 +511,33 @@ def default_name(ctx) -> None:
         ctx.rep.check(multi_ok, rule, f"{f.qualname}/default", "multi-well default name contains the well ID; single-well default is the labware name",
                       f"default names are `{show(a)[:40]}` (multi) / `{show(b_)[:30]}` (single): not well-specific resp. not the labware name", where=w)
     if multi_ok is None:
+        # statement form of the choice (if is_multiwell: cname = f"{name}.{w}" else: cname = name): case split with conditions
+        seen_multi = seen_single = False
+        bad = None
+        for conds, val in fv.alternatives(st.ast.targets[0].value.slice, st.id):
+            mw = None
+            for c_, p_ in conds:
+                rc = fv.res.resolve(c_, st.id) if isinstance(c_, ast.Name) else c_
+                cls = _multiwell_test(rc)
+                if cls is True:
+                    mw = p_
+                elif cls is False and not any(is_sym(x, "elem") or (isinstance(x, ast.Name) and x.id in ("component_names", "initial_volumes")) for x in ast.walk(rc)):
+                    bad = rc
+            parts = template_parts(val) if isinstance(val, ast.JoinedStr) else None
+            if parts is not None and mw is True:
+                holes = [p for p in parts if isinstance(p, Hole)]
+                if any(is_sym(h.expr, "elem") and h.expr.args[0].value == loopid for h in holes):
+                    seen_multi = True
+            elif is_name(val, "name") and mw is False:
+                seen_single = True
+        if bad is not None:
+            ctx.rep.refuted(rule, f"{f.qualname}/multiwell-test", f"default names are made well-specific depending on `{show(bad)[:60]}`, which is not 'the labware has more than one row/well': "
+                            "wells of a multi-row plate (e.g. an 8x1 strip) would share one default name", where=w)
+            return
+        if seen_multi and seen_single:
+            multi_ok = True
+            ctx.rep.holds(rule, f"{f.qualname}/default", "multi-well default name contains the well ID; single-well default is the labware name", where=w)
+    if multi_ok is None:
         ctx.rep.inconclusive(rule, f"{f.qualname}/default", f"default-name choice not found in `{show(cname)[:80]}`", where=w)
     # explicit names win: component_names.get(w) of the same well
     explicit = any(kind == "plain" and isinstance(t, ast.Call) and call_fname(t) == "get" and t.args and is_sym(t.args[0], "elem") for kind, t in flat)
